@@ -96,6 +96,16 @@ int main(int argc, char **argv)
 }
 
 
+# the "go" back end of this tree still emits C (src/go-flex.skl: a renamed copy of the c99 skeleton; the test-suite compiles
+# its output with the C compiler): same driver as c99 with the type FlexLexer *
+BACKENDS['go'] = {
+    'options': ['emit="go"'],
+    'top': BACKENDS['c99']['top'],
+    'main': BACKENDS['c99']['main'].replace("yyscan_t s;", "FlexLexer *s;"),
+    'cc': ["gcc", "-std=gnu99", "-D_GNU_SOURCE", "-w", "-O0", "-x", "c"], 'ext': 'go',
+}
+
+
 def prologue(backend, defrule, extra_top=""):
     b = BACKENDS[backend]
     return "\n%{\n" + b['top'].replace('%(defrule)d', str(defrule)) + extra_top + "\n%}\n"
